@@ -3,6 +3,7 @@ import BtcModel.Model.Fees
 import BtcModel.Spec.Ledger
 import BtcModel.Gen.Constants
 import BtcModel.Model.Merkle
+import BtcModel.Model.AddrParse
 
 /-
   Line protocol for the canister model: parsing of blocks / requests and canonical printing of
@@ -89,9 +90,39 @@ def showUtxo (u : Utxo) : String := s!"{u.height}:{hash64 u.outpoint.txid}:{u.ou
 def showUtxoList (l : List Utxo) : String := "[" ++ joinWith "," (l.map showUtxo) ++ "]"
 
 def parseAddrArg (s : String) : State.AddrArg :=
-  if s == "bad" then .malformed
-  else if s == "wrongnet" then .wrongNetwork
-  else .ok (strBytes (s.drop 2).toString)
+  if s == "bad" || s.startsWith "bad:" then .malformed
+  else if s == "wrongnet" || s.startsWith "wrongnet:" then .wrongNetwork
+  else .ok (strBytes ((s.drop 2).toString.splitOn "~")[0]!)
+
+/-- the request's address string as sent (`<class>:<hex of the string>` or `a:<canonical>~<hex>`) -/
+def requestString (s : String) : Option String :=
+  let hexPart : Option String :=
+    if s.startsWith "bad:" then some (s.drop 4).toString
+    else if s.startsWith "wrongnet:" then some (s.drop 9).toString
+    else if s.startsWith "a:" then (match (s.drop 2).toString.splitOn "~" with | [_, h] => some h | _ => none)
+    else none
+  hexPart.map (fun h => String.ofList ((hexToBytes h).map (fun b => Char.ofNat b)))
+
+/-- `Address::from_str_checked` as modelled (`Btc.AddrParse.parseAddress`) applied to the request's
+    string; the ledger key is the canonical text of the script it denotes -/
+def addrArgOwn (net : Tree.Net) (text : String) : State.AddrArg :=
+  match Btc.AddrParse.parseAddress net (strBytes text) with
+  | .ok script =>
+    match Btc.BlockCodec.addressOf net script with
+    | some a => .ok a
+    | none => .malformed
+  | .wrongNetwork => .wrongNetwork
+  | .malformed => .malformed
+
+/-- The model's own reading of the request string when the line carries it, cross-checked with the
+    classification the real parser gave (second component: they agree). -/
+def addrArgChecked (net : Tree.Net) (tok : String) : State.AddrArg × Bool :=
+  let given := parseAddrArg tok
+  match requestString tok with
+  | none => (given, true)
+  | some text =>
+    let own := addrArgOwn net text
+    (own, own == given)
 
 /-- `Page::from_bytes` on hex text: 72 bytes = tip(32) ‖ height (XOR-ed BE, 4) ‖ txid(32) ‖ vout LE (4) -/
 def parsePage (hex : String) : Option (Nat × Nat × OutPoint) :=
